@@ -91,7 +91,12 @@ def rule_b(ctx, cr):
     for b, s, v in st:
         d = n.describe_value(v) or ""
         if "Chars<'a> as std::iter::Iterator>::count" in d and ".col.end Add" in d:
-            names = n.back_slice_calls(s["rv"]["op"]) if s["rv"]["k"] == "use" else set()
+            rv = s["rv"]
+            names = set()
+            if rv["k"] == "use":
+                names = n.back_slice_calls(rv["op"])
+            elif rv["k"] == "binop":      # overflow checks off: the Add is stored directly
+                names = n.back_slice_calls(rv["l"]) | n.back_slice_calls(rv["r"])
             ok = any(x.endswith("ToString>::to_string") for x in names)
     ctx.check(ok, "C19.b", "parser/column-advance", n.span,
               "col.end += token.to_string().chars().count()",
